@@ -117,6 +117,7 @@ type FnCtx struct {
 	noDecreases map[int]bool
 	mapRangeLoops int
 	inlineStack   []string
+	imprecise     []string
 	brokenContracts map[string]bool
 	hintMode      int // >0 while a loop invariant (a proof hint, not a claim) is evaluated
 	loopInitVar   map[token.Pos]*types.Var
